@@ -252,22 +252,36 @@ func resolve(c hclass, v uint64, width int, a uint64) uint64 {
 	return uint64(r) & (W - 1)
 }
 
+// callTimeout bounds one call: the failure mode excluded by C09's time clause
+// is work proportional to a declared number (2^32 iterations), which takes
+// minutes; a call that has not returned by then is reported as hung and the
+// worker is restarted (the runaway goroutine cannot be stopped).
+const callTimeout = 6 * time.Second
+
 // measured runs fn, returning allocation in bytes, wall time, and an escaped panic.
-func measured(fn func()) (alloc uint64, wall time.Duration, pan string) {
+func measured(fn func()) (alloc uint64, wall time.Duration, pan string, hung bool) {
 	var m0, m1 runtime.MemStats
 	runtime.ReadMemStats(&m0)
 	t0 := time.Now()
-	func() {
+	done := make(chan string, 1)
+	go func() {
+		p := ""
 		defer func() {
 			if r := recover(); r != nil {
-				pan = fmt.Sprint(r)
+				p = fmt.Sprint(r)
 			}
+			done <- p
 		}()
 		fn()
 	}()
+	select {
+	case pan = <-done:
+	case <-time.After(callTimeout):
+		hung = true
+	}
 	wall = time.Since(t0)
 	runtime.ReadMemStats(&m1)
-	return m1.TotalAlloc - m0.TotalAlloc, wall, pan
+	return m1.TotalAlloc - m0.TotalAlloc, wall, pan, hung
 }
 
 // exercise runs every public entry point reachable for the input and returns one event per entry point.
@@ -317,11 +331,13 @@ func exercise(structName string, data []byte, tag map[string]interface{}, emit f
 	}
 	for _, c := range calls {
 		n := len(data)
-		alloc, wall, pan := measured(c.fn)
+		alloc, wall, pan, hung := measured(c.fn)
 		budgetMs := int64(1000 + 2*(n/1024))
-		for try := 0; try < 3 && wall.Milliseconds() > budgetMs; try++ {
-			_, w2, _ := measured(c.fn) // time only: take the fastest of up to 4 runs
-			if w2 < wall {
+		for try := 0; try < 3 && !hung && wall.Milliseconds() > budgetMs; try++ {
+			_, w2, _, h2 := measured(c.fn) // time only: take the fastest of up to 4 runs
+			if h2 {
+				hung = true
+			} else if w2 < wall {
 				wall = w2
 			}
 		}
@@ -330,12 +346,22 @@ func exercise(structName string, data []byte, tag map[string]interface{}, emit f
 		if pan != "" {
 			ev["panic_text"] = pan
 		}
+		if hung {
+			ev["hung"] = true
+		}
 		for k, v := range tag {
 			ev[k] = v
 		}
 		emit(ev)
+		if hung {
+			hungExit()
+		}
 	}
 }
+
+// hungExit is set by hostileCmd: flush what has been recorded and leave, so that
+// the orchestrator restarts the worker after the job that hung.
+var hungExit = func() {}
 
 func hostileCmd(args []string) error {
 	fs := flag.NewFlagSet("hostile", flag.ExitOnError)
@@ -387,6 +413,12 @@ func hostileCmd(args []string) error {
 		w.WriteByte('\n')
 	}
 	job := 0
+	hungExit = func() {
+		fmt.Fprintf(w, "#HUNG %d\n", job)
+		w.Flush()
+		of.Close()
+		os.Exit(7)
+	}
 	mine := func() bool { job++; return (job-1)%*shards == *shard && job > *from }
 	begin := func(desc string) {
 		// crash forensics: the last BEGIN without a result names the input that killed the process
